@@ -53,6 +53,7 @@ class Client:
         self.log: list[list[str]] = []  # log records emitted by this client during current op
         self.error: BaseException | None = None
         self.trace_fn: Callable[..., Any] | None = None
+        self.log_fault: dict[str, Any] | None = None  # fault in the application log handler
         self.suspended = 1  # opcode granularity: > 0 = instruction events of this thread ignored
 
 
